@@ -223,6 +223,33 @@ let () =
              (String.concat "" (List.map (fun (id, ver) -> " " ^ id_s id ^ ":" ^ hex_of_n ver) so.so_nv))
          | RStatus s -> printf_m "scan %s n=0 t=[ ] nv=[ ]" (status_s s)
          | _ -> print_endline "scan STUCK")
+      | "iphantom" :: s :: l :: le :: r :: re :: rtl :: k :: v :: _ ->
+        let sname = bytes_of_hex s in
+        let tree_of () = match find_storage !st sname with
+          | Some (Some sid) -> trees_get !st.sy_trees sid | _ -> None in
+        let (lk, ln) = key_tok l and (rk, rn) = key_tok r in
+        let a = { ia_l = lk; ia_le = ep_of le; ia_r = rk; ia_re = ep_of re; ia_rtl = (rtl = "1"); ia_lnull = ln; ia_rnull = rn } in
+        let k = bytes_of_hex k and v = bytes_of_hex v in
+        let (status, nres, cbs) = (match tree_of () with
+            | Some tr -> (match iscan_all tr a with
+                | Some ((stt, kv), cbs) -> (stt, List.length kv, cbs)
+                | None -> (St_ERR_FATAL, 0, []))
+            | None -> (St_WARN_STORAGE_NOT_EXIST, 0, [])) in
+        let absent = (match exec !st (OGet (sname, k)) with (_, RGet g) -> g.go_status = St_WARN_NOT_EXIST | _ -> false) in
+        let lks = if a.ia_le = EP_INF then [] else lk in
+        let inl = a.ia_le = EP_INF || lexlt lks k || (lks = k && a.ia_le = EP_INCL) in
+        let inr = a.ia_re = EP_INF || lexlt k rk || (k = rk && a.ia_re = EP_INCL) in
+        let cov = status = St_OK && absent && inl && inr in
+        let ps = if cov then
+            (match exec !st (OPut (sname, k, v, n_of_int 1, false, false)) with
+             | (s', RPut po) -> st := s'; ignore (spec_exec !sp (OPut (sname, k, v, n_of_int 1, false, false)) |> fun (p', _) -> sp := p'); status_s po.po_status
+             | _ -> "STUCK") else "OK" in
+        let det = cov && (match tree_of () with
+            | Some tr -> let h = versions_of tr in
+              List.exists (fun (id, ver) -> match Hashtbl.find_opt h (int_of_n id) with
+                  | Some cur -> not (N.eqb cur ver) | None -> true) cbs
+            | None -> false) in
+        printf_m "iphantom %s n=%d cov=%s det=%s nvn=%d put=%s" (status_s status) nres (b2s cov) (b2s det) (List.length cbs) ps
       | ("phantom" | "getmiss") as opn :: s :: rest ->
         let sname = bytes_of_hex s in
         let tree_of () = match find_storage !st sname with
